@@ -51,6 +51,35 @@ CHECKS.update({
 ENGINES[0]["serves_properties"] = sorted(CHECKS.keys())
 ENGINES[1]["serves_properties"] = ["C14", "C15", "C18", "C19", "C20"]
 
+CHECKS.update({
+    "C01": _c("mirfacts", "field-dependency completeness (reads) per trait role, must-pass-through on the conjunction of selector groups, enum-arm/field correspondence for holiday calendars, shape rules on the midnight spill, query-based merge rule",
+              "Decides: a rule is matched against all four selector groups conjunctively and every leaf selector reads every field of every variant; PH/SH read only, and the right, context calendar on the date shifted by the rule's offset, and evaluation reaches no embedded database; time spans are projected through every meaningful field; the spill past midnight is cut at 24:00/48:00 and shifted by exactly -24 h, a span wraps iff not start < end; overlapping spans are merged keeping the farther end. Does not decide selector arithmetic (steps, nth, offsets, leap days, Easter, ISO weeks) nor the overlay of rule kinds/operators.",
+              "DESIGN.md section 3, C01", _TB + "Not decided: arithmetic on dates; e.g. an off-by-one in the nth-weekday position is invisible to these rules."),
+    "C02": _c("mirfacts", "operation-class rules (MIN before flatten, no adaptor between list and aggregation), reads completeness for hints and for the constant shortcut, sibling agreement filter/hint, guard dominance in the iterator",
+              "Decides: hints are combined as minima over all rules, all selector groups and all elements, with 'unknown' (None) winning; leaf hints read every field or answer unknown; the constant shortcut reads every rule attribute schedule_at branches on and compares only with the hole state; the hint's calendar lookups use the filter's shifted date; the iterator only jumps to a hint asserted to be in the future. Does not decide that each selector's hint value is a lower bound, nor merging across days.",
+              "DESIGN.md section 3, C02", _TB + "Not decided: hint values (e.g. a hint one day late)."),
+    "C07": _c("mirfacts", "reads completeness for MakeCanonical impls, constant tables of frames, sibling agreement canonical/as_naive on the wrap condition, must-pass-through of days_covered.set, universal-loop early-exit rule on is_val",
+              "Decides necessary conditions of the rewrite: selectors are folded into the paving only after every field was inspected; frame bounds are the extremes of each dimension; a time span is canonical exactly when evaluation does not wrap it; every emitted rule marks its days covered; is_val only answers false early or true at exhaustion (this rule found the defect fixed in 8fb95e4); the day-wide reset uses the full bounds. Does not decide the paving algebra (set/pop_filter values) nor operator choice as a whole.",
+              "DESIGN.md section 3, C07", _TB + "Not decided: values of the paving."),
+    "C09": _c("mirfacts+witness", "expression-shape rules on the Localize impls, generic-call rule (no resolved Localize call in generic bodies), per-variant delegation via enum arms, compile-time witness with an opaque DateTime type",
+              "Decides: naive() is naive_local of with_timezone(&self.tz); datetime() resolves with latest() and retries after +1 minute on the unmodified naive value; the generic evaluator converts only through the locale and builds every returned bound with locale.datetime (plus a parametricity witness); the Python locale delegates per variant. Does not decide monotonicity of returned bounds in absolute time.",
+              "DESIGN.md section 3, C09", _TB + "Trusted: chrono/chrono-tz semantics of with_timezone, from_local_datetime, latest."),
+    "C11": _c("mirfacts", "enum-arm constant tables, parameter-name driven argument provenance (lat/lon), expression-shape rule on the UTC->zone data path",
+              "Decides exactly the first sentence (default table 06/07/19/20 without coordinates) and: event -> solar event table with one twilight definition; latitude/longitude never swapped at any of the 10 call boundaries with lat*/lon*/lng* parameters; the UTC event reaches the result only through with_timezone(&self.tz) and the wall-clock conversion; offsets are added with the written sign. Does not decide the physical ordering of events nor coordinate acceptance (inside the `sunrise` crate).",
+              "DESIGN.md section 3, C11", _TB + "Trusted: sunrise, tzf-rs, country-boundaries."),
+    "C12": _c("mirfacts", "type-directed conversion-site rule (error type -> exception), expression-shape delegation rules, enum-arm tables, control-dependence rule for explicit country",
+              "Decides: error types map to the documented exceptions; validate is the success of the constructor's parser call; RuleKind -> State and texts agree with the core; each method delegates to its namesake on self.inner with the instant passed in; 10000-01-01 becomes None on interval ends by equality with the core's DATE_END; holiday inference from coordinates is only reachable without an explicit country; aware results keep their zone; __str__/__repr__ print the core's Display. Does not decide value agreement over all 13 argument combinations.",
+              "DESIGN.md section 3, C12", _TB + "pyo3-generated glue is not analysed."),
+    "C13": _c("mirfacts", "effect-class reachability from normalize, hash-iteration rule, derived-equality inventory, shared structural rules of C07",
+              "Decides the determinism sentence (normalizing equal expressions gives equal results): no ambient input, no hash-order dependence, structural equality on all 16 AST types; and re-checks the two structural conditions of C07 whose violation breaks idempotence. Does not decide idempotence as a whole.",
+              "DESIGN.md section 3, C13", _TB + "Not decided: normalize(normalize(e)) == normalize(e)."),
+    "C17": _c("mirfacts+witness", "type facts, string-creation reachability (provenance), expression-shape rules on schedule construction and on the interval iterator, compile_fail witnesses",
+              "Decides: comments leave the library only as UniqueSortedVec<Arc<str>>; evaluation creates no string, so every comment value was stored by the parser; a period is built with the kind and comments of the rule its spans come from, holes without comments; intervals carry the comments of the first peeked period and the interval iterator never merges comments; the parser chains both comment positions. Does not decide which comments an overlapping/merged period ends with.",
+              "DESIGN.md section 3, C17", _TB + "The sorted/unique invariant itself is C20."),
+})
+ENGINES[0]["serves_properties"] = sorted(CHECKS.keys())
+ENGINES[1]["serves_properties"] = ["C09", "C14", "C15", "C17", "C18", "C19", "C20"]
+
 NOT_APPLICABLE = {
     "C16": "Every sentence compares durations measured at run time from two reference points of a stateful iterator; no clause whose truth is visible in the shape of the code could be separated without either inter-call path-sensitive taint over iterator state or freezing a source fragment (DESIGN.md section 4).",
 }
